@@ -124,7 +124,7 @@ fn new_root_body<'gc>(w: &mut World, a: Aid, mc: &'gc Mutation<'gc>, root_set: I
     }
     w.sh.objs.insert(
         root_set,
-        Obj { kind: Kind::SetInner, arena: a, strong: vec![], weak: vec![], toks: vec![], addr, block, destructed: false, released: false, born_event: w.ev_index as u32, lay: None, conv: vec![] },
+        Obj { kind: Kind::SetInner, arena: a, strong: vec![], weak: vec![], toks: vec![], addr, block, destructed: false, released: false, born_event: w.ev_index as u32, lay: None, conv: vec![], drop_faulted: false },
     );
     w.addr2id.insert(addr, root_set);
     w.rt[a as usize].allocs += 1;
@@ -144,7 +144,7 @@ fn new_root_body<'gc>(w: &mut World, a: Aid, mc: &'gc Mutation<'gc>, root_set: I
     }
     w.sh.objs.insert(
         root_set + 1,
-        Obj { kind: Kind::ZstShared, arena: a, strong: vec![], weak: vec![], toks: vec![], addr: zaddr, block: zblock, destructed: false, released: false, born_event: w.ev_index as u32, lay: None, conv: vec![] },
+        Obj { kind: Kind::ZstShared, arena: a, strong: vec![], weak: vec![], toks: vec![], addr: zaddr, block: zblock, destructed: false, released: false, born_event: w.ev_index as u32, lay: None, conv: vec![], drop_faulted: false },
     );
     w.addr2id.insert(zaddr, root_set + 1);
     w.sh.arena_mut(a).root_zst = Some(root_set + 1);
@@ -183,7 +183,7 @@ impl World {
             }
             if seam::active() {
                 if let Some(b) = self.sh.objs[&i].block {
-                    if seam::block(b).live {
+                    if seam::block(b).live && !self.sh.objs[&i].drop_faulted {
                         let d = format!("arena {a} is gone but the Gc block of {i} was never released");
                         self.violate(o_out, d);
                         return;
@@ -191,12 +191,13 @@ impl World {
                 }
             }
         }
-        if seam::active() && seam::live_gc_blocks(a as u16) != 0 {
+        let leaked = self.sh.arena_objs(a).filter(|(_, o)| o.drop_faulted && o.block.is_some_and(|b| seam::block(b).live)).count();
+        if seam::active() && seam::live_gc_blocks(a as u16) != leaked as i64 {
             let d = format!("arena {a} is gone but {} Gc blocks are still allocated", seam::live_gc_blocks(a as u16));
             self.violate(o_out, d);
         }
         if let Some(m) = &self.rt[a as usize].retained {
-            if m.total_gc_count() != 0 {
+            if m.total_gc_count() != leaked {
                 let d = format!("arena {a} is gone but its retained Metrics reads total_gc_count = {}", m.total_gc_count());
                 self.violate("C04.count-after-drop", d);
             }
